@@ -11,10 +11,15 @@ if "-j" in args:
 only = set(args[1:]) if args and args[0] == "--only" else None
 resf = os.path.join(V, "seeded", "RESULTS.json")
 results = json.load(open(resf)) if os.path.exists(resf) else {}
-dirs = sorted(d for d in glob.glob("/tmp/seed*-out/C*-*/") if re.search(r"/C\d\d-[a-z]/$", d))
+dirs = sorted(d for d in glob.glob("/tmp/seed*-out/C*-*/") + glob.glob("/tmp/sd2_*-out/C*-*/") if re.search(r"/C\d\d-[a-z]/$", d))
 def work(d):
     name = os.path.basename(d.rstrip("/"))
     if only and name not in only: return
+    if not all(os.path.exists(os.path.join(d, f)) for f in ("patch.diff", "demo.diff", "meta.json")): return
+    try:
+        json.load(open(os.path.join(d, "meta.json")))["demo_cmd"]
+    except Exception:
+        return
     dst = os.path.join(V, "seeded", name)
     os.makedirs(dst, exist_ok=True)
     for f in ("patch.diff", "demo.diff", "meta.json"):
@@ -23,7 +28,7 @@ def work(d):
     r = results.get(name, {})
     meta = json.load(open(os.path.join(dst, "meta.json")))
     if "confirmed" not in r:
-        p = subprocess.run([os.path.join(V, "tools/confirm_seed.py"), dst], text=True, stdout=subprocess.PIPE, stderr=subprocess.STDOUT)
+        p = subprocess.run([os.path.join(V, "tools/confirm_seed.py"), dst] + (["--skip-tests"] if os.environ.get("SEED_SKIP_TESTS") else []), text=True, stdout=subprocess.PIPE, stderr=subprocess.STDOUT)
         try:
             c = json.loads(p.stdout[p.stdout.index("{"):])
         except Exception:
